@@ -23,6 +23,14 @@ structure St where
   labels : List String := []
   maxInner : Nat := 0
   sawFullFrozenLock : Bool := false
+  modelErr : Option Verdict := none   -- first observation the model does not accept (replay stops, spec goes on)
+
+/-- apply a model step unless the replay has already stopped; a disabled step stops it -/
+def St.mdl (st : St) (f : Sys → Option Sys) (err : Verdict) : St :=
+  if st.modelErr.isSome then st else
+  match f st.sys with
+  | some s' => { st with sys := s' }
+  | none => { st with modelErr := some err }
 
 def mkObs (st : St) (inner called returned : List Nat) : List Obs :=
   (List.range st.attrs.size).map fun i =>
@@ -48,17 +56,11 @@ def stepRec (st : St) (r : Array String) : Except Verdict St :=
       .ok (addLabel st s!"op-{r.getD 3 "?"}")
     | "release" =>
       let i := (r.getD 2 "0").toNat?.getD 0
-      match step st.sys (.finish i) with
-      | some s' => .ok { st with sys := s', frozenBefore := st.frozen }
-      | none => .error (.differ "release" s!"model: call {i} is not inside the wrapped backend")
+      .ok { st.mdl (fun s => step s (.finish i)) (.differ "release" s!"model: call {i} is not inside the wrapped backend") with frozenBefore := st.frozen }
     | "freeze" =>
-      match step st.sys .freeze with
-      | some s' => .ok (addLabel { st with sys := s', pendingFreeze := true, frozenBefore := st.frozen } "freeze")
-      | none => .error (.differ "freeze" "model: already frozen")
+      .ok (addLabel { st.mdl (fun s => step s .freeze) (.differ "freeze" "model: already frozen") with pendingFreeze := true, frozenBefore := st.frozen } "freeze")
     | "unfreeze" =>
-      match step st.sys .unfreeze with
-      | some s' => .ok (addLabel { st with sys := s', frozen := false, frozenBefore := st.frozen } "unfreeze")
-      | none => .error (.differ "unfreeze" "model: not frozen")
+      .ok (addLabel { st.mdl (fun s => step s .unfreeze) (.differ "unfreeze" "model: not frozen") with frozen := false, frozenBefore := st.frozen } "unfreeze")
     | c => .error (.differ "protocol" s!"unknown-cmd-{c}")
   | "obs" =>
     if r.getD 1 "0" != "1" then .error (.differ "harness" "settle-timeout") else
@@ -72,15 +74,17 @@ def stepRec (st : St) (r : Array String) : Except Verdict St :=
     | some clause => .error (.specfalse s!"C37:{clause}" s!"n={st.sys.n} frozen={st.frozen} obs={r.toList}")
     | none =>
     -- model: replay the observed progress, then check nothing is left that the model would do
+    let st := { st with prev := cur }
+    if st.modelErr.isSome then .ok st else
     match advance st.sys cur with
-    | .error e => .error (.differ "progress" s!"{e} n={st.sys.n} frozen={st.frozen} obs={r.toList}")
+    | .error e => .ok { st with modelErr := some (.differ "progress" s!"{e} n={st.sys.n} frozen={st.frozen} obs={r.toList}") }
     | .ok s' =>
       match stuck s' with
-      | some i => .error (.differ "blocked" s!"call {i} waits although the model enables it; n={s'.n} tokens={s'.tokens} frozen={s'.frozen} obs={r.toList}")
+      | some i => .ok { st with modelErr := some (.differ "blocked" s!"call {i} waits although the model enables it; n={s'.n} tokens={s'.tokens} frozen={s'.frozen} obs={r.toList}") }
       | none =>
-        if !specState s' then .error (.differ "model" "specState false on the model state") else
+        if !specState s' then .ok { st with modelErr := some (.differ "model" "specState false on the model state") } else
         let nInner := cur.countP (fun o => !o.isLock && o.inner)
-        let st := { st with sys := s', prev := cur, maxInner := max st.maxInner nInner }
+        let st := { st with sys := s', maxInner := max st.maxInner nInner }
         let st := if nInner == s'.n then addLabel st "all-slots-taken" else st
         let waiting := cur.any (fun o => !o.isLock && !o.inner && !o.returned)
         let st := if waiting && !st.frozen then addLabel st "waits-for-slot" else st
@@ -94,7 +98,7 @@ def stepRec (st : St) (r : Array String) : Except Verdict St :=
     let i := (r.getD 1 "0").toNat?.getD 0
     let a := st.attrs.getD i (false, true, false)
     let want := if !a.2.1 then "perm" else if a.2.2 then "ctx" else "nil"
-    if r.getD 2 "" != want then .error (.differ "error-class" s!"call {i}: model {want} impl {r.getD 2 ""}") else .ok st
+    if r.getD 2 "" != want && st.modelErr.isNone then .ok { st with modelErr := some (.differ "error-class" s!"call {i}: model {want} impl {r.getD 2 ""}") } else .ok st
   | _ => .ok st
 
 def handleC37 (c : Case) : Verdict :=
@@ -104,6 +108,9 @@ def handleC37 (c : Case) : Verdict :=
   match c.recs.foldlM stepRec st0 with
   | .error v => v
   | .ok st =>
+    match st.modelErr with
+    | some v => v
+    | none =>
     let allDone := st.prev.all (·.returned)
     if !allDone then .differ "drain" "calls left unreturned at the end of the case" else
     .agree (st.attrs.size ≥ 2) (st.labels.reverse ++ [s!"n{n}", s!"maxinner{st.maxInner}"])
